@@ -295,8 +295,13 @@ def run_replays(mod, pid, ctx, known):
         entries = kf.get(os.path.normpath(path), [])
         if o.failure is not None:
             match = [e for e in entries if e.get("sig") == o.failure.sig]
+            if not match:
+                # another saved input that fails with a listed signature is the same finding
+                match = [e for e in known.for_property(pid) if e.get("sig") == o.failure.sig]
             if match:
-                known_lines.append("KNOWN-FINDING: property=%s %s" % (pid, match[0]["text"]))
+                line = "KNOWN-FINDING: property=%s %s" % (pid, match[0]["text"])
+                if line not in known_lines:
+                    known_lines.append(line)
             else:
                 violations.append((o.failure.sig, o.failure.detail, path))
         else:
